@@ -9,6 +9,7 @@ spec is closed (C06 oracle) and, executed on identical inputs on the reference
 model, binds identical tensors under the same output names (and, in metrics
 mode, passes the C12 trace checker and yields the same metrics dictionary
 under content-addressed stand-ins)."""
+import collections
 import hashlib
 import json
 import os
@@ -46,7 +47,7 @@ def build_corpus(tier, seed):
                 s2.spacetime = None
             items.append((s2, m, None))
     n = NSPECS[tier]
-    i = 0
+    i = mi = 0
     classes = ["shape", "occupancy2", "flatten", "occupancy", "metrics", "double-flatten",
                "cascade", "flatten3", "occupancy2", "metrics", "affine", "spacetime", "double-flatten",
                "flatten3", "plain", "flatten-lookup"]
@@ -54,7 +55,12 @@ def build_corpus(tier, seed):
         rnd = random.Random("%s-%d-%d" % (ID, seed, i))
         cls = classes[i % len(classes)]
         i += 1
-        r = corpus.make(cls, rnd)
+        variant = None
+        if cls == "metrics":
+            vl = mcommon.VARIANTS + ["eager2"] * 3
+            variant = vl[mi % len(vl)]
+            mi += 1
+        r = corpus.make(cls, rnd, variant)
         if r is None:
             continue
         spec, mode, ext = r
@@ -148,6 +154,17 @@ def analyse(in_file, out_file):
                     probs.extend(tp)
                     sig["__metrics__"] = json.dumps(check_jsonable(o2.ex.ns.get("metrics")),
                                                     sort_keys=True)
+                    # the multiset of collection events (which streams are registered,
+                    # which are produced in the loop nest and how often, which are consumed)
+                    evs = collections.Counter(
+                        json.dumps([kind, _ev_canon(d)], sort_keys=True)
+                        for kind, d in o2.ex.rec.events
+                        if kind in ("trace", "fiber_trace", "consumeTrace", "addTraces",
+                                    "filterTrace", "buffetTraffic", "cacheTraffic", "numIters",
+                                    "beginCollect", "endCollect", "registerRank", "matchRanks",
+                                    "associateShape", "addUse", "incCount", "streamTraffic",
+                                    "numSwaps", "getNumIntersects", "traffic"))
+                    sig["__collection_events__"] = sorted(evs.items())
             elif o2.status == "exec-error":
                 for p in o2.problems:
                     if kf.name_error_name(p.get("error")) not in static:
@@ -173,6 +190,17 @@ def analyse(in_file, out_file):
                                  "seeds_a": texts[0]["seeds"][:3], "seeds_b": t["seeds"][:3]}]
                 st.account(ID, cs, out, lambda s, p: None, mode_key="disagree")
     json.dump(check_jsonable(st.result()), open(out_file, "w"))
+
+
+def _ev_canon(o):
+    """Event data without object identities (a fiber argument becomes its type name)."""
+    if isinstance(o, dict):
+        return {str(k): _ev_canon(v) for k, v in o.items()}
+    if isinstance(o, (list, tuple, set)):
+        return [_ev_canon(x) for x in o]
+    if isinstance(o, (str, int, float, bool)) or o is None:
+        return o
+    return type(o).__name__
 
 
 def check_jsonable(o):
